@@ -135,7 +135,8 @@ pub fn check_prog(p: &Prog, rep: &mut Report) {
     rep.outcomes.insert(outcome);
     // visibility does not depend on the write options: the same program under a second option set (validation on,
     // other derives, another representation) must give the same table. Quick tier: every 4th program.
-    if rep.thorough() || hash64(&p.key) % 4 == 0 {
+    let space_a = p.key.starts_with("A|");
+    if (rep.thorough() && (!space_a || hash64(&p.key) % 4 == 0)) || (!rep.thorough() && hash64(&p.key) % 4 == 0) {
         let alt = Config { validate: Validate::All, bytemuck_vertex: true, serde: true, repr: Repr::Nalgebra, encase: true, ..Config::default() };
         rep.evaluations += 1;
         match generate(&p.src, &alt) {
@@ -528,7 +529,8 @@ pub fn run(tier: &str) -> i32 {
     {
         let n0 = progs.len();
         for i in 0..n0 {
-            if !(thorough || hash64(&progs[i].key) % 16 == 2) {
+            let space_a = progs[i].key.starts_with("A|");
+            if !((thorough && (!space_a || hash64(&progs[i].key) % 8 == 2)) || (!thorough && hash64(&progs[i].key) % 16 == 2)) {
                 continue;
             }
             for style in ["camel", "upper"] {
@@ -543,7 +545,8 @@ pub fn run(tier: &str) -> i32 {
     // and with the functions first (every 8th program in quick)
     let n0 = progs.len();
     for i in 0..n0 {
-        if !(thorough || hash64(&progs[i].key) % 8 == 1) {
+        let space_a = progs[i].key.starts_with("A|");
+        if !((thorough && (!space_a || hash64(&progs[i].key) % 8 == 1)) || (!thorough && hash64(&progs[i].key) % 8 == 1)) {
             continue;
         }
         for how in ["reverse", "entries-first"] {
